@@ -180,7 +180,9 @@ func (w *opsWorld) realOp(op string) string {
 		return fmt.Sprint(code, ids)
 	case "archive":
 		code, body := w.httpDo("GET", "/api/v1/archive", nil)
-		w.lastArchive = body
+		if code == 200 {
+			w.lastArchive = body
+		}
 		return fmt.Sprint(code)
 	}
 	panic("realOp: unknown op " + op)
@@ -368,6 +370,13 @@ func init() {
 				if bad := ratesMisplaced(w.S.VerifSnapshot(), w.Now); bad != "" {
 					out.Violations = append(out.Violations, vio{"impact-rate-misplaced", bad})
 				}
+			}
+			if w.lastArchive != nil {
+				if files, err := readZip(w.lastArchive); err == nil {
+					out.Outcome += fmt.Sprintf("||archive: stats=%d reports=%d auths=%d gca=%d", len(files["allDeviceStats.dat"]), len(files["equipment-reports.dat"]), len(files["equipment-authorizations.dat"]), len(files["gcaPubKey.dat"]))
+				}
+			} else if strings.Contains(d.Name, "archive") {
+				out.Outcome += "||no archive produced"
 			}
 			if extra := d.extraCheck(w); extra != nil {
 				out.Violations = append(out.Violations, *extra)
